@@ -189,7 +189,7 @@ def rule_gate(ck):
                 elif _hdr_get(v, "Sec-Websocket-Origin"):
                     nodes = [n for n in cfg.stmt_nodes(lambda n: n.ast is s)]
                     # the legacy header is only used when there is no Origin header
-                    okp = okp and all(any(pol is False and "Origin" in txt and " in " in txt for (txt, pol) in facts[n.id]) for n in nodes)
+                    okp = okp and all(any((pol is False and "Origin" in txt and " in " in txt) or (pol is True and txt == "%s is None" % arg and saw_origin) for (txt, pol) in facts[n.id]) for n in nodes)
                 else:
                     okp = False
             ck.ob(R, g, cocall, okp and saw_origin, "the value handed to check_origin is the Origin header (Sec-Websocket-Origin only when Origin is absent)", construct="origin provenance: " + q.normalize_construct(cocall, q.local_names(g.node)))
